@@ -575,8 +575,13 @@ func (x *walker) naiveLoop() {
 		if attempt >= 40 {
 			harness("naive merge did not succeed in 40 attempts")
 		}
-		if attempt > 0 {
+		if attempt >= 3 {
+			// Enough failures: wait until the storage has calmed down.
+			w.k.SeamWhen("merge-retry-when-calm", func() bool { return !w.k.FaultsOn })
+		} else if attempt > 0 {
 			w.k.Yield("merge-retry")
+		}
+		if attempt > 0 {
 			// The worker would throw the build directory away.
 			ns.fs.root.children = map[string]*memNode{}
 		}
